@@ -669,7 +669,7 @@ func (r *rig) stepConnect(i int) error {
 	if err := r.connectExp(i); err != nil {
 		r.notes = append(r.notes, err.Error())
 	}
-	return r.record(fmt.Sprintf("connect %d", i), fmt.Sprintf("xsync start %d", n.spec.Pos))
+	return r.record(fmt.Sprintf("connect %d", i), fmt.Sprintf("xsync start %d %d", i, n.spec.Pos))
 }
 
 // stepServe: node i takes up its oldest unanswered getheaders.
@@ -737,6 +737,15 @@ func (r *rig) stepAnnounce(i int, how string, k int) error {
 	if how == "headers" && !n.peerHas(from) {
 		how = "inv"
 		step += " (parent not known to be with the peer: falls back to inv)"
+	}
+	if how == "headers" && r.s.Engine == "exp" {
+		n.mu.Lock()
+		asked := n.gotSendH
+		n.mu.Unlock()
+		if !asked {
+			how = "inv"
+			step += " (no sendheaders received: inv)"
+		}
 	}
 	return r.stepPush(i, how, idxs, step)
 }
